@@ -10,6 +10,7 @@
       directive       `{ a σ⏎}`              a directive of the field `a`
       argument        `{ a(σ⏎)}`             an argument of the field `a`
       description     `σ⏎scalar A`           the description of the scalar `A` (flags with `allow_type_system`)
+      object field    `{ σ⏎}`                through `parse_value`: a field of an input-object literal
 
   `⏎` is a line feed: the spanned text ends with its last token, and a line feed satisfies every follow restriction of
   the lexical grammar (a space would do as well; ignored characters are insignificant — `lex_ignored_invariant`).
@@ -336,6 +337,53 @@ theorem span_reparse_argument (fl : Flags) (s : Text) (d : Document) (h : parseT
     · rw [checkAll_cons]
       exact ⟨_, rest2, (check_tok ..).2 ⟨_, rfl, rfl, rfl⟩, by rw [checkAll_nil]⟩
 
+/-! ### object fields: inside braces, through `parse_value` -/
+
+/-- OBJECT FIELDS (`name: value` inside an input-object literal, at any depth of any value): the spanned text between `{ `
+    and `⏎}` is accepted by `parse_value` under the same flags, and the result is the object literal whose only field is the
+    node, moved to offset 2. -/
+theorem span_reparse_object_field (fl : Flags) (s : Text) (d : Document) (h : parseText fl s = some d) :
+    ∀ x ∈ d.definitions, ∀ f : ObjectField, Item.Sub (objectFieldV f) (definitionV x) → ∀ c, wfField c f = true →
+      ∀ name value a b, f = .mk name value (some (a, b)) →
+      a ≤ b ∧ b ≤ s.length ∧
+      parseValueText fl ([123, 32] ++ slice s a b ++ [10, 125]) =
+        some (.object [(f.mapLoc (locDown a)).mapLoc (locUp 2)] (some (0, b - a + 4))) := by
+  intro x hx f hs c hwf name value a b hf
+  subst hf
+  have hnode : objectFieldV (.mk name value (some (a, b))) = .node (some (a, b)) [nameV name, p .colon, valueV value] := by
+    simp [objectFieldV]
+  obtain ⟨h1, h2, hnl, hlen, seg, htl, hc⟩ := doc_tiles fl s d h x hx _ hs a b _ hnode
+  refine ⟨h1, h2, ?_⟩
+  rw [← objectFieldV_down] at hc
+  have hnode0 : objectFieldV ((ObjectField.mk name value (some (a, b))).mapLoc (locDown a)) = .node (some (a - a, b - a))
+      [nameV (name.mapLoc (locDown a)), p .colon, valueV (value.mapLoc (locDown a))] := by
+    simp [objectFieldV, ObjectField.mapLoc, locDown]
+  rw [hnode0] at hc
+  obtain ⟨f0, tl, l1, hseg, _, hck⟩ := ctx_check fl _ _ seg (b - a)
+    (by rw [← hnode0]; exact objectFieldV_solid _) (by rw [← hnode0]; exact objectFieldV_plain _) hc
+  apply (parse_value_text_result fl _ _).2
+  refine ⟨_, tiles_braces hlen htl, ?_, (matches_iff _ _ _).2 ⟨eofT (b - a + 4), ?_⟩⟩
+  · have := wfValue_of_const c value (by simpa [wfField] using hwf)
+    simp [wfValue, wfFields, wfField, ObjectField.mapLoc, wfValue_mapLoc, this]
+  · rw [checkAll_cons]
+    refine ⟨_, _, (check_tok ..).2 ⟨_, rfl, rfl, rfl⟩, ?_⟩
+    rw [checkAll_cons]
+    refine ⟨⟨.curlyR, b - a + 3, b - a + 4, [125]⟩, [eofT (b - a + 4)], ?_, ?_⟩
+    · simp only [valueV, fieldsV]
+      rw [check_node]
+      refine ⟨_, _, rfl, ?_, by rw [locOf_eq fl hnl]⟩
+      rw [checkAll_cons]
+      refine ⟨_, _, (check_tok ..).2 ⟨_, rfl, rfl, rfl⟩, ?_⟩
+      rw [List.cons_append, List.nil_append, checkAll_cons]
+      refine ⟨l1.up 2, [⟨.curlyR, b - a + 3, b - a + 4, [125]⟩, eofT (b - a + 4)], ?_, ?_⟩
+      · have := hck 2 ⟨.curlyL, 0, 1, [123]⟩ [⟨.curlyR, b - a + 3, b - a + 4, [125]⟩, eofT (b - a + 4)]
+        rw [← hnode0, ← objectFieldV_up] at this
+        exact this
+      · rw [checkAll_cons]
+        exact ⟨_, _, (check_tok ..).2 ⟨_, rfl, rfl, rfl⟩, by rw [checkAll_nil]⟩
+    · rw [checkAll_cons]
+      exact ⟨_, _, (check_tok ..).2 ⟨_, rfl, rfl, rfl⟩, by rw [checkAll_nil]⟩
+
 /-! ### descriptions: in front of `scalar A` -/
 
 /-- DESCRIPTIONS (of type definitions, field definitions, argument definitions, enum values, directive definitions; quoted
@@ -460,6 +508,13 @@ example : (parseText {} ([123, 32, 97, 40] ++ slice cdoc 3 8 ++ [10, 41, 125])).
         | .mk [.field _ _ args _ _ l] _ => (args.map (·.loc), l)
         | _ => ([], none))
       | _ => ([], none))) = some [([some (4, 9)], some (2, 11))] := by decide
+
+/-- `{a(x:{k:[1]})}`: the object field `k:[1]` spans (6,11); `{ k:[1]⏎}` is the object literal with that field at (2,7) -/
+private def odoc : Text := [123, 97, 40, 120, 58, 123, 107, 58, 91, 49, 93, 125, 41, 125]
+example : (parseText {} odoc).isSome = true := by decide
+example : (parseValueText {} ([123, 32] ++ slice odoc 6 11 ++ [10, 125])).map (fun v => match v with
+    | .object [.mk _ _ l] l2 => (l, l2)
+    | _ => (none, none)) = some (some (2, 7), some (0, 9)) := by decide
 
 /-- `type T{"d" f:I}`: the description `"d"` of the field `f` spans (7,10); `"d"⏎scalar A` parses to the scalar `A`
     with that description at (0,3) -/
